@@ -120,12 +120,15 @@ let opt c k d = match List.assoc_opt k c.opts with Some v -> v | None -> d
 
 let oracle_of (c : xcase) : xoracle =
   let key_n x = hex_of_n x and key_b b = hex_of_bytes b in
-  { xo_show32 = (fun x -> Hashtbl.find_opt c.s32 (key_n x));
-    xo_show64 = (fun x -> Hashtbl.find_opt c.s64 (key_n x));
-    xo_parse32 = (fun b -> Hashtbl.find_opt c.p32 (key_b b));
-    xo_parse64 = (fun b -> Hashtbl.find_opt c.p64 (key_b b));
-    xo_quant = (fun x -> Hashtbl.find_opt c.q (key_n x));
-    xo_unit = (fun x -> Hashtbl.find_opt c.u (key_n x)) }
+  let dbg = Sys.getenv_opt "XML_TABLE_DEBUG" <> None in
+  let look name tbl k = let r = Hashtbl.find_opt tbl k in
+    (if r = None && dbg then prerr_endline ("table miss: " ^ name ^ " " ^ k)); r in
+  { xo_show32 = (fun x -> look "s32" c.s32 (key_n x));
+    xo_show64 = (fun x -> look "s64" c.s64 (key_n x));
+    xo_parse32 = (fun b -> look "p32" c.p32 (key_b b));
+    xo_parse64 = (fun b -> look "p64" c.p64 (key_b b));
+    xo_quant = (fun x -> look "q" c.q (key_n x));
+    xo_unit = (fun x -> look "u" c.u (key_n x)) }
 
 let env_of (c : xcase) : xenv =
   { xe_db = Lazy.force model_db; xe_font = font_migration_table; xe_brick = brick_color_table; xe_o = oracle_of c;
